@@ -217,6 +217,8 @@ type c14Runner struct {
 	c   *core.Ctx
 	env *drv.Env
 	reg *c14Registry
+	// result cells found in a pool by exec (see there)
+	poolHits []string
 }
 
 func newC14Runner(c *core.Ctx) *c14Runner {
@@ -241,6 +243,16 @@ func (r *c14Runner) exec(stmts []parser.Statement) (out string, err error) {
 	for _, v := range r.env.Tx.SelectedViews {
 		sb.WriteString(drv.RowsKey(drv.Rows(v)))
 		sb.WriteByte('\n')
+		// a cell of a result is live: it must not sit in a pool, from where the next evaluations would re-issue and overwrite it
+		for _, rec := range v.RecordSet {
+			for _, cell := range rec {
+				if len(cell) > 0 {
+					if who, ok := vrt.InPool(cell[0]); ok {
+						r.poolHits = append(r.poolHits, "a result cell holding "+rv.FromPrimary(cell[0]).Key()+" was handed to value.Discard by "+who)
+					}
+				}
+			}
+		}
 	}
 	return sb.String(), err
 }
@@ -277,6 +289,11 @@ func (r *c14Runner) evalTwice(family, sqlText string, stmts []parser.Statement, 
 	cls := family + ":" + strings.SplitN(sqlText, "(", 2)[0]
 	if len(r.reg.hits) > 0 {
 		r.c.Violate("provenance:"+r.reg.hits[0][strings.Index(r.reg.hits[0], "discarded by"):], fmt.Sprintf("%s with %v: %s (value.Discard was handed an object that is still referenced)", sqlText, args, r.reg.hits[0]), payload)
+	}
+	if len(r.poolHits) > 0 {
+		h := r.poolHits[0]
+		r.c.Violate("live-object-in-pool:"+h[strings.Index(h, "value.Discard by")+17:], fmt.Sprintf("%s with %v: %s and is still in its pool: later values will be written into it", sqlText, args, h), payload)
+		r.poolHits = nil
 	}
 	if after := astKey(stmts); after != before {
 		r.c.Violate("syntax-tree-edited-by-evaluation:"+cls, fmt.Sprintf("%s with %v: the stored syntax tree differs after evaluation\n before: %s\n after:  %s", sqlText, args, clip(before), clip(after)), payload)
@@ -761,6 +778,13 @@ func (r *c14Runner) familySnapshot() {
 }
 
 // c14CheckPools reports objects that were handed to value.Discard while they were already in their pool.
+func (r *c14Runner) checkLive(what string, payload any) {
+	for _, h := range r.poolHits {
+		r.c.Violate("live-object-in-pool:"+h[strings.Index(h, "value.Discard by")+17:], fmt.Sprintf("%s: %s and is still in its pool: later values will be written into it", what, h), payload)
+	}
+	r.poolHits = nil
+}
+
 func c14CheckPools(c *core.Ctx, what string, payload any) {
 	for _, d := range vrt.DoubleDiscards() {
 		c.Violate("double-discard:"+d, fmt.Sprintf("%s: an object was handed to value.Discard twice without being re-issued in between (%s): the pool now holds it twice and two later values will be one object", what, d), payload)
@@ -778,12 +802,16 @@ func c14Run(c *core.Ctx) {
 	r.familyReread()
 	c14CheckPools(c, "family reread", c14Payload{Family: "reread"})
 	r.familyFnDML(c.Thorough())
+	r.checkLive("family fn-dml", c14Payload{Family: "fn-dml"})
 	c14CheckPools(c, "family fn-dml (functions inside UPDATE and DELETE)", c14Payload{Family: "fn-dml"})
 	r.familyFnCell(c.Thorough())
+	r.checkLive("family fn-cell", c14Payload{Family: "fn-cell"})
 	c14CheckPools(c, "family fn-cell (functions over table cells)", c14Payload{Family: "fn-cell"})
 	r.familyFnLit(c.Thorough())
+	r.checkLive("family fn-lit", c14Payload{Family: "fn-lit"})
 	c14CheckPools(c, "family fn-lit (functions over literals)", c14Payload{Family: "fn-lit"})
 	r.familyFnVar(c.Thorough())
+	r.checkLive("family fn-var", c14Payload{Family: "fn-var"})
 	c14CheckPools(c, "family fn-var (functions over variables)", c14Payload{Family: "fn-var"})
 	if c.WantSample() {
 		c.Sample(map[string]any{"family": "fn-var", "example": "SELECT SUBSTRING(@a, @b, @c) with every (a, b, c) over the alphabet, evaluated twice"})
@@ -791,6 +819,9 @@ func c14Run(c *core.Ctx) {
 }
 
 func c14Replay(c *core.Ctx, payload json.RawMessage) {
+	if c14ParallelReplay(c, payload) {
+		return
+	}
 	var p c14Payload
 	if err := json.Unmarshal(payload, &p); err != nil {
 		fmt.Println(err)
